@@ -12,6 +12,8 @@ macro_rules! harness_ownable {
             let env = $crate::Env::default();
             let _h = shim::fresh_host();
             let new_owner = <$crate::Address as Wordy>::symbolic();
+            let seen_owner = <$T>::owner(&env);
+            assert!(inst().pre::<_, $crate::Address>(&OWNER_KEY) == Some(seen_owner) && shim::no_effects(), "OBL C06.owner_view_agrees: owner() reports the stored role holder and changes nothing");
 
             <$T>::transfer_ownership(&env, new_owner.clone());
 
@@ -43,6 +45,8 @@ macro_rules! harness_operatable {
             let env = $crate::Env::default();
             let _h = shim::fresh_host();
             let new_op = <$crate::Address as Wordy>::symbolic();
+            let seen_op = <$T>::operator(&env);
+            assert!(inst().pre::<_, $crate::Address>(&OPERATOR_KEY) == Some(seen_op) && shim::no_effects(), "OBL C06.operator_view_agrees: operator() reports the stored role holder and changes nothing");
 
             <$T>::transfer_operatorship(&env, new_op.clone());
 
